@@ -6,7 +6,7 @@ CONSTANTS
   DedupDone = TRUE
   Outcomes = {"done", "eof", "http500", "drop", "empty", "junk_done"}
   Calls <- CallSetSmall
-  Choices = {"auto", "none", "fn_ls"}
+  Choices = {"auto", "none", "fn_ls", "allowed_hosted_only"}
   Modes = {TRUE, FALSE}
 VIEW GenView
 INVARIANTS Emit
